@@ -118,7 +118,7 @@ Section Crypt.
   Proof.
     intros Hp. unfold crypt. destruct (Z.odd (zlen payload)); [discriminate|].
     destruct (int_to_be id 2) as [idb|]; cbn [bind]; [|discriminate].
-    destruct (e <? 0); [discriminate|].
+    destruct ((e <? 0) && (match idxs with [] => false | _ => true end)); [discriminate|].
     destruct (crypt_rounds kdf idxs pass (s_shamir ++ idb) (Z.shiftl 2500 e) (zlen payload / 2)
                 (firstn (Z.to_nat (zlen payload / 2)) payload)
                 (skipn (Z.to_nat (zlen payload / 2)) payload)) as [[l r]|] eqn:R;
